@@ -303,6 +303,13 @@ def build(tier, rnd):
                     # a group whose modulus is as long as a packet allows: whatever the tool computes with it is done within its time bound
                     faults = faults + [('hugegroup%d' % bits, (lambda d, bits=bits: [wire.frame(bytes([31]) + wire.mpint((1 << (bits - 1)) | 0x9f3b1) + wire.mpint(2))]))
                                        for bits in ((32768, 65536, 262144) if n == 2 else (131072,))]
+            if kind == 'kexreply' and n <= 6:
+                # a well-formed reply whose RSA host key has a public exponent / a modulus as long as a packet allows (thousands of decimal digits):
+                # whatever the tool does with the numbers, it ends the audit in the ordinary way
+                def hugekey(d, ebits=16000, nbits=3072):
+                    blob = wire.string(b'ssh-rsa') + wire.mpint((1 << (ebits - 1)) | 0x10001) + wire.mpint((1 << (nbits - 1)) | 0x4d5f)
+                    return [wire.frame(bytes([d[5]]) + wire.string(blob) + wire.string(b'\x07' * 32) + wire.string(wire.string(b'ssh-rsa') + wire.string(b'\x01' * 64)))]
+                faults = faults + [('hugeexponent', hugekey), ('hugeexponent+modulus', lambda d: hugekey(d, 20000, 120000))]
             if tier == 'quick' and n > 6:
                 # later group-exchange connections repeat the same message shapes: sample them
                 faults = [f for j, f in enumerate(faults) if (j + n) % 4 == 0]
